@@ -743,6 +743,31 @@ def handleSR (payload : String) : String :=
     let doc := CDD.untag ((j.getObjVal? "doc").toOption.getD Json.null)
     if SM.accepts doc then "ACCEPT" else "REFUSE"
 
+/-- f32 bit pattern of a number the simple reader stores in an `f32` field (via f64, as serde does) -/
+def numBitsF32 (n : Option JS.Num) (dflt : Float32) : Nat :=
+  match n with
+  | none => dflt.toBits.toNat
+  | some v => (CDD.numToF32 v).toBits.toNat
+
+/-- `SD`: the complete result of the simple-format reader model on a document: `ERR`, or the dump
+    `{"courses": [[index, name, min, max, instructors, factor bits, offset bits, fixed, hidden] …],
+      "parts": [[index, name, [[course, penalty] …]] …], "consistent": bool}` -/
+def handleSD (payload : String) : String :=
+  match Json.parse payload with
+  | .error e => s!"bad json {e}"
+  | .ok j =>
+    let doc := CDD.untag ((j.getObjVal? "doc").toOption.getD Json.null)
+    match SM.read doc with
+    | .error _ => "ERR"
+    | .ok (parts, courses) =>
+      let cs := courses.zipIdx.map (fun (c, i) =>
+        Json.arr #[toJson i, toJson c.name, toJson c.numMin, toJson c.numMax, toJson c.instructors,
+                   toJson (numBitsF32 c.factor 1.0), toJson (numBitsF32 c.offset 0.0), toJson c.fixed, toJson c.hidden])
+      let ps := parts.zipIdx.map (fun (p, i) =>
+        Json.arr #[toJson i, toJson p.name, Json.arr (p.choices.map (fun ch => Json.arr #[toJson ch.course, toJson ch.penalty])).toArray])
+      let cons := (MainM.Data.simple parts courses).consistent
+      (Json.mkObj [("courses", Json.arr cs.toArray), ("parts", Json.arr ps.toArray), ("consistent", toJson cons)]).compress
+
 /-- `RI`: the two room inputs: `{"str": …}` → `ok a,b,c` / `REFUSE`; `{"file": tagged}` → `ok n` / `REFUSE` -/
 def handleRI (payload : String) : String :=
   match Json.parse payload with
@@ -832,6 +857,7 @@ def dispatch (line : String) : String :=
     | "OS" => handleOS payload
     | "RI" => handleRI payload
     | "MF" => handleMF payload
+    | "SD" => handleSD payload
     | _ => "bad tag"
   | _ => "bad line"
 
